@@ -1102,6 +1102,8 @@ fn c16_case(req: &str) -> Case {
         let mut held = vec![];
         for s in &stages {
             // "crowd": six hundred connections that are opened and then say nothing (from the hostile peer's own address)
+            // "junk-crowd": eleven hundred connections that send something other than a PROXY header (or nothing useful) and are turned away
+            if *s == "junk-crowd" { for _ in 0..1100 { if let Ok(mut c) = Cli::connect(srv.port, Some(Ipv4Addr::new(127, 0, 0, 2))).await { c.raw(b"GET / HTTP/1.1\r\n\r\n").await; let _ = c.wait_close(Duration::from_millis(200)).await; } } continue; }
             if *s == "crowd" { for _ in 0..600 { held.push(Cli::connect(srv.port, Some(Ipv4Addr::new(127, 0, 0, 2))).await.ok()); } tokio::time::sleep(Duration::from_millis(1000)).await; }
             else { held.push(stall(srv.port, proxy, s).await); }
         }
@@ -1145,6 +1147,8 @@ pub fn run_c16(a: &Args) {
     reqs.push("c16.run proxy=0 limiter=0 gap=0 stalled=grpc-status".into());
     reqs.push("c16.run proxy=0 limiter=0 gap=0 stalled=crowd".into());
     reqs.push("c16.run proxy=1 limiter=0 gap=0 stalled=crowd,pre".into());
+    reqs.push("c16.run proxy=1 limiter=0 gap=0 stalled=junk-crowd".into());
+    reqs.push("c16.run proxy=1 limiter=1 gap=0 stalled=junk-crowd".into());
     let cases = retry_failed(par_cases(a.seed, reqs.len(), |i, _| guarded(&reqs[i], c16_case)), &reqs, |r| guarded(r, c16_case));
     write_cases(&a.out, &cases).expect("write cases");
     println!("c16: {} cases", cases.len());
